@@ -441,6 +441,62 @@ fn holders(tys: &[G], t: &mut Tally) {
     }
 }
 
+/// `GenericsExt`: the declared type parameters are the type parameters (never lifetimes or const
+/// parameters), the declared lifetimes the lifetimes, for every order of declaration; and a
+/// query built from them answers like a query built by hand.
+fn declared_sets(t: &mut Tally) {
+    use darling::usage::{CollectTypeParams, GenericsExt, Purpose};
+    let heads = [
+        "", "<T>", "<'a>", "<const N: usize>", "<T, U, X>", "<'a, 'b, T: Clone + 'a, U, X = u8, const N: usize = 3>", "<'a, const N: usize, T, U, const M: usize, X>",
+        "<const N: usize, const T2: bool, 'a, T>", "<T: Iterator<Item = U>, U, const U2: u8>", "<#[cfg(any())] T, #[doc = \"d\"] 'a, #[allow(unused)] const N: usize>",
+    ];
+    for head in heads {
+        let g: syn::Generics = match syn::parse_str::<syn::DeriveInput>(&format!("struct S{head};")) {
+            Ok(di) => di.generics,
+            Err(_) => {
+                t.hit("generator_unparseable");
+                continue;
+            }
+        };
+        t.evaluations += 1;
+        t.hit("declared_sets_checked");
+        let mut want_t: Vec<String> = g.params.iter().filter_map(|p| if let syn::GenericParam::Type(x) = p { Some(x.ident.to_string()) } else { None }).collect();
+        let mut want_l: Vec<String> = g.params.iter().filter_map(|p| if let syn::GenericParam::Lifetime(x) = p { Some(x.lifetime.to_string()) } else { None }).collect();
+        want_t.sort();
+        want_l.sort();
+        let got = catch(std::panic::AssertUnwindSafe(|| {
+            let mut a: Vec<String> = g.declared_type_params().into_iter().map(|i| i.to_string()).collect();
+            let mut b: Vec<String> = g.declared_lifetimes().into_iter().map(|l| l.to_string()).collect();
+            a.sort();
+            b.sort();
+            (a, b)
+        }));
+        match got {
+            Ok((a, b)) if a == want_t && b == want_l => {}
+            other => t.violate(Violation {
+                key: format!("C19 declared `{head}` :: {other:?}"),
+                what: format!("generics `{head}`: declared_type_params / declared_lifetimes = {other:?}, expected ({want_t:?}, {want_l:?})"),
+                case: json!({"head": head}),
+                detail: json!({}),
+            }),
+        }
+        // a const parameter written as a bare path in argument position is not a type parameter
+        if head.contains("const N") {
+            let set = g.declared_type_params();
+            let fields: syn::FieldsNamed = syn::parse_str("{ a: Chunk<T, N>, b: [u8; N], c: Foo<{ N }> }").unwrap();
+            let used: Vec<String> = {
+                let mut v: Vec<String> = fields.named.iter().collect_type_params(&Purpose::Declare.into(), &set).into_iter().map(|i| i.to_string()).collect();
+                v.sort();
+                v
+            };
+            let want: Vec<String> = if want_t.contains(&"T".to_string()) { vec!["T".into()] } else { vec![] };
+            if used != want {
+                t.violate(Violation { key: format!("C19 declared-usage `{head}` :: {used:?}"), what: format!("generics `{head}`, fields `a: Chunk<T, N>, b: [u8; N], c: Foo<{{ N }}>`: type parameters used = {used:?}, expected {want:?}"), case: json!({"head": head}), detail: json!({}) });
+            }
+        }
+    }
+}
+
 // ------------------------------------------------------------------ derive half
 
 fn squash(s: String) -> String {
@@ -672,6 +728,7 @@ pub fn main(args: &Args) {
     let mut t = Tally::default();
     collections(&tys, &mut t);
     holders(&tys, &mut t);
+    declared_sets(&mut t);
     let small: Vec<G> = types(1).into_iter().filter(|g| !g.text.contains("impl ")).collect();
     derive_half(&small, thorough, &mut t);
     rep.absorb(t);
